@@ -21,19 +21,7 @@ RULE = (execprop.RULE + "; plus the same scenarios with the real Slurm / LSF `ch
 def run(ctx, escalated=False):
     quick = ctx.tier == "quick" and not escalated
     cases = execprop.run(ctx, "C20", escalated, finish=False)
-    for k in range(600 if quick else 12000):
-        scn = E.gen_scenario(ctx.rng, maxn=6)
-        scn["dry"] = 0
-        scn["sched"] = [1] * scn["n"]
-        scn["faulty"] = 1
-        scn["via"] = ("slurm", "lsf")[k % 2]
-        scn["via_seed"] = ctx.rng.randint(0, 10 ** 9)
-        c = execprop.run_one(ctx, "C20", scn, rng=ctx.rng)
-        cases.append(c)
-        ctx.count("via:" + scn["via"])
-        for o in c.trace:
-            if o.op["op"] == "poll":
-                ctx.count("via-code:%s:%s" % (scn["via"], o.op["code"]))
+    cases += execprop.via_cases(ctx, "C20", 600 if quick else 12000)
     diffs = compare(cases)
     account(ctx, cases)
     judge(ctx, cases, diffs, "execution-graph+adapters", shrink=execprop.shrink_factory(ctx, "C20"))
